@@ -16,7 +16,7 @@ RULE = ('case = (MAX_QUEUE_SIZE, flow control, watermark, batch size, dynamic ro
         'exhaustive sequences up to length L from several prefixes for one destination, seeded random sequences of length '
         '30-200 for 1-3 destinations; non-trivial = sequence with >=1 connection event and >=2 arrivals; distinct = sequences')
 EXHAUSTIVE = {'quick': True, 'thorough': True}
-EXHAUSTIVE_OVER = 'all applicable event sequences up to length L (quick L=4, thorough L=6) after each listed prefix, one destination'
+EXHAUSTIVE_OVER = 'all applicable event sequences up to length L (quick L=4, thorough L=5) after each listed prefix, one destination'
 ASSUMPTIONS = ['USE_RATIO_RESET, SSL and DESTINATION_POOL_REPLICAS off; <=3 destinations',
                'a transport on which the client called loseConnection() is closed at the end of the same harness step',
                'fractional hard limits read as ceil(limit)']
@@ -83,7 +83,7 @@ def run_config(cfg, res, relay_oracle=None, extra_weights=None):
   ns = rl.ns
   r = gen.rng(cfg['seed'], PROPERTY, cfg['name'])
   vs = variants(r, cfg['tier'])
-  L = 4 if cfg['tier'] == 'quick' else 6
+  L = 4 if cfg['tier'] == 'quick' else 5
   alphabet = rh.ALPHABET
 
   def report(s, v, events, extra=None):
@@ -118,7 +118,7 @@ def run_config(cfg, res, relay_oracle=None, extra_weights=None):
     res.case(repr((sorted(v.items()), s.log)), nontrivial=(nconn >= 1 and s.counters['arrivals'] + s.counters['hp_arrivals'] >= 2))
 
   # exhaustive part: one destination
-  nvar = 2 if cfg['tier'] == 'quick' else 6
+  nvar = 2 if cfg['tier'] == 'quick' else 3
   # the exhaustive part always covers the static and the dynamic router
   chosen = [next(v for v in vs if not v['dyn'] and v['hw'] and v['protocol'] == 'line' and v['batch'] > 1),
             next(v for v in vs if v['dyn'] and v['retries'] == 0)]
